@@ -13,6 +13,8 @@
     [factory.new_decoder(x)] (a reader positioned at the offset of node [x]) and [pos] is
     [bit_pos].  Definitions only. *)
 From WG Require Import Base.Prelude Codes.Codes BV.Model BV.RefSel BV.Bits.
+
+Module AccessM.
 Local Open Scope N_scope.
 
 (** Number of elements that [mask c bs l] keeps of a list of [n] elements: what
@@ -354,3 +356,7 @@ Definition acc_offdeg_from_ring le cs p (offs : list N) (s : bits) (k : N)
     (length offs - 1) k.
 Definition acc_next_successors le cs p (n : nat) (s : bits) : option (list (list N)) :=
   next_successors_all bits (rd_bits le cs) p n s.
+
+
+End AccessM.
+Export AccessM.
